@@ -14,7 +14,12 @@ Lemma pin_codegen_codegen_normsq : src_codegen_codegen_normsq = "def codegen_nor
     return x * ~x".
 Proof. reflexivity. Qed.
 Lemma pin_operator_dict_OperatorDict_filter : src_operator_dict_OperatorDict_filter = "def filter(self, keys_out, values_out):
-    keysvalues = tuple(((k, simpv) for k, v in zip(keys_out, values_out) if (simpv := self.algebra.simp_func(v))))
+    keysvalues = tuple(((k, self.algebra.simp_func(v)) for k, v in zip(keys_out, values_out)))
+    if self.algebra.graded:
+        grades = {format(k, 'b').count('1') for k, simpv in keysvalues if simpv}
+        keysvalues = tuple(((k, simpv) for k, simpv in keysvalues if format(k, 'b').count('1') in grades))
+    else:
+        keysvalues = tuple(((k, simpv) for k, simpv in keysvalues if simpv))
     keys, values = zip(*keysvalues) if keysvalues else (tuple(), list())
     return (keys, list(values))".
 Proof. reflexivity. Qed.
